@@ -22,14 +22,19 @@ CONSTANTS Files,        \* source files in the tree
           Items,        \* Items[f] = sequence of [name, kind] the file contributes when parsed
           OutOf,        \* OutOf[f] = the output file the items of f go to (one for all in single-file mode, one per crate in folder mode)
           SingleFile,   \* TRUE: -o (exactly one output, its absence is an error); FALSE: -d
-          GenKinds      \* subset of {"ok","generr"}: whether generating an output can be refused by the backend (consts in Kotlin, ...)
+          GenKinds,     \* subset of {"ok","generr"}: whether generating an output can be refused by the backend (consts in Kotlin, ...)
+          Visits,       \* Visits[f] >= 1: how often the walk delivers f (2: overlapping directory arguments, a directory given twice)
+          Dedupe        \* what is done about repeated deliveries: "none" (the code: every delivery is parsed and folded),
+                        \* "global" (one shared seen-set) or "per_worker" (one seen-set per walker thread - a tempting mistake,
+                        \* kept as a switch so that TLC can show what it violates)
 
 \* result of parsing a file:
 \*   none  no #[typeshare] in it (Ok(None))            ok   ParsedData without errors
 \*   bad   ParsedData carrying per-item parse errors    err  Err(..) (unreadable / not Rust)
 \*   panic the parser panics inside the worker
 VARIABLES result,                 \* chosen once in Init: [Files -> ResultKinds]
-          pool, quitMsgs,         \* work not yet taken; Quit messages lying in the deques
+          pool, quitMsgs,         \* deliveries not yet taken (pool[f] = how many of f are left); Quit messages lying in the deques
+          seenG, seenW,           \* files already parsed: globally / per worker (used by the Dedupe variants only)
           wpc, wfile,             \* per worker program counter / file in hand
           active, quitNow,        \* ignore's shared atomics
           chan, rxOpen,           \* bounded channel; FALSE once the receiver is dropped
@@ -39,7 +44,8 @@ VARIABLES result,                 \* chosen once in Init: [Files -> ResultKinds]
           genres, todo, wrote     \* generation stage: backend verdict per output (chosen in Init); outputs still to generate, in
                                   \* name order; outputs handed to the writer so far (written or found unchanged)
 
-vars == <<result, pool, quitMsgs, wpc, wfile, active, quitNow, chan, rxOpen, col, acc, txMain, main, genres, todo, wrote>>
+vars == <<result, pool, quitMsgs, seenG, seenW, wpc, wfile, active, quitNow, chan, rxOpen, col, acc, txMain, main, genres, todo, wrote>>
+Left == {f \in Files : pool[f] > 0}
 gvars == <<genres, todo, wrote>>
 Outs == {OutOf[f] : f \in Files}
 RECURSIVE SeqOfSet(_)
@@ -54,7 +60,8 @@ Exits == {"exit0", "exit1", "exit101"}
 
 Init ==
     /\ result \in [Files -> ResultKinds]
-    /\ pool = Files /\ quitMsgs = 0
+    /\ pool = Visits /\ quitMsgs = 0
+    /\ seenG = {} /\ seenW = [w \in Workers |-> {}]
     /\ wpc = [w \in Workers |-> "get"] /\ wfile = [w \in Workers |-> NoFile]
     /\ active = Cardinality(Workers) /\ quitNow = FALSE
     /\ chan = <<>> /\ rxOpen = TRUE
@@ -67,41 +74,46 @@ Init ==
 \* Worker::get_work, one pass through its loop
 GetWork(w) ==
     /\ wpc[w] = "get"
-    /\ IF quitNow \/ (pool = {} /\ quitMsgs > 0)
+    /\ IF quitNow \/ (Left = {} /\ quitMsgs > 0)
        THEN \* Message::Quit: repeat it for the others and leave
             /\ quitMsgs' = IF quitNow /\ quitMsgs = 0 THEN 1 ELSE quitMsgs
             /\ wpc' = [wpc EXCEPT ![w] = "exited"]
             /\ UNCHANGED <<pool, wfile, active>>
-       ELSE IF pool # {}
-       THEN \E f \in pool :
-            /\ pool' = pool \ {f}
+       ELSE IF Left # {}
+       THEN \E f \in Left :
+            /\ pool' = [pool EXCEPT ![f] = @ - 1]
             /\ wfile' = [wfile EXCEPT ![w] = f]
             /\ wpc' = [wpc EXCEPT ![w] = "parse"]
-            /\ UNCHANGED <<quitMsgs, active>>
+            /\ UNCHANGED <<quitMsgs, seenG, seenW, active>>
        ELSE \* nothing to do: deactivate; the last one to do so tells everybody to quit
             /\ active' = active - 1
             /\ IF active' = 0
                THEN quitMsgs' = quitMsgs + 1 /\ wpc' = [wpc EXCEPT ![w] = "exited"]
                ELSE quitMsgs' = quitMsgs /\ wpc' = [wpc EXCEPT ![w] = "idle"]
             /\ UNCHANGED <<pool, wfile>>
-    /\ UNCHANGED <<result, quitNow, chan, rxOpen, col, acc, txMain, main, genres, todo, wrote>>
+    /\ UNCHANGED <<result, seenG, seenW, quitNow, chan, rxOpen, col, acc, txMain, main, genres, todo, wrote>>
 
 \* the sleep loop: a message became available
 IdleWake(w) ==
     /\ wpc[w] = "idle"
-    /\ pool # {} \/ quitMsgs > 0
+    /\ Left # {} \/ quitMsgs > 0
     /\ active' = active + 1
     /\ wpc' = [wpc EXCEPT ![w] = "get"]
-    /\ UNCHANGED <<result, pool, quitMsgs, wfile, quitNow, chan, rxOpen, col, acc, txMain, main, genres, todo, wrote>>
+    /\ UNCHANGED <<result, pool, quitMsgs, seenG, seenW, wfile, quitNow, chan, rxOpen, col, acc, txMain, main, genres, todo, wrote>>
 
 \* the visitor closure up to the send
+\* a repeated delivery that the Dedupe variant recognises is dropped like a file without annotations
+Repeated(w) == \/ Dedupe = "global" /\ wfile[w] \in seenG
+               \/ Dedupe = "per_worker" /\ wfile[w] \in seenW[w]
 Parse(w) ==
     /\ wpc[w] = "parse"
-    /\ LET r == result[wfile[w]] IN
-       wpc' = [wpc EXCEPT ![w] = CASE r = "panic" -> "dead"      \* unwinds; active_workers is NOT decremented
-                                   [] r = "none" -> "get"
-                                   [] OTHER -> "send"]
-    /\ wfile' = [wfile EXCEPT ![w] = IF result[wfile[w]] \in {"panic", "none"} THEN NoFile ELSE wfile[w]]
+    /\ LET r == IF Repeated(w) THEN "none" ELSE result[wfile[w]] IN
+       /\ wpc' = [wpc EXCEPT ![w] = CASE r = "panic" -> "dead"      \* unwinds; active_workers is NOT decremented
+                                      [] r = "none" -> "get"
+                                      [] OTHER -> "send"]
+       /\ wfile' = [wfile EXCEPT ![w] = IF r \in {"panic", "none"} THEN NoFile ELSE wfile[w]]
+    /\ seenG' = IF Dedupe = "global" THEN seenG \cup {wfile[w]} ELSE seenG
+    /\ seenW' = IF Dedupe = "per_worker" THEN [seenW EXCEPT ![w] = @ \cup {wfile[w]}] ELSE seenW
     /\ UNCHANGED <<result, pool, quitMsgs, active, quitNow, chan, rxOpen, col, acc, txMain, main, genres, todo, wrote>>
 
 \* tx.send(..): blocks while the channel is full; Err(SendError) once the receiver is gone, in which
@@ -118,20 +130,20 @@ Send(w) ==
             /\ chan' = Append(chan, wfile[w])
             /\ wpc' = [wpc EXCEPT ![w] = "sent"]
             /\ wfile' = wfile
-    /\ UNCHANGED <<result, pool, quitMsgs, active, quitNow, rxOpen, col, acc, txMain, main, genres, todo, wrote>>
+    /\ UNCHANGED <<result, pool, quitMsgs, seenG, seenW, active, quitNow, rxOpen, col, acc, txMain, main, genres, todo, wrote>>
 
 SendRet(w) ==
     /\ wpc[w] = "sent"
     /\ wpc' = [wpc EXCEPT ![w] = IF result[wfile[w]] = "err" THEN "quit" ELSE "get"]
     /\ wfile' = [wfile EXCEPT ![w] = NoFile]
-    /\ UNCHANGED <<result, pool, quitMsgs, active, quitNow, chan, rxOpen, col, acc, txMain, main, genres, todo, wrote>>
+    /\ UNCHANGED <<result, pool, quitMsgs, seenG, seenW, active, quitNow, chan, rxOpen, col, acc, txMain, main, genres, todo, wrote>>
 
 \* WalkState::Quit -> Worker::quit_now()
 Quit(w) ==
     /\ wpc[w] = "quit"
     /\ quitNow' = TRUE
     /\ wpc' = [wpc EXCEPT ![w] = "get"]
-    /\ UNCHANGED <<result, pool, quitMsgs, wfile, active, chan, rxOpen, col, acc, txMain, main, genres, todo, wrote>>
+    /\ UNCHANGED <<result, pool, quitMsgs, seenG, seenW, wfile, active, chan, rxOpen, col, acc, txMain, main, genres, todo, wrote>>
 
 \* ----------------------------------------------------------------- collector
 Recv ==
@@ -139,14 +151,14 @@ Recv ==
     /\ IF result[Head(chan)] = "err"
        THEN col' = "retErr" /\ rxOpen' = FALSE /\ chan' = <<>> /\ acc' = acc     \* `result?`
        ELSE col' = col /\ rxOpen' = rxOpen /\ chan' = Tail(chan) /\ acc' = Append(acc, Head(chan))
-    /\ UNCHANGED <<result, pool, quitMsgs, wpc, wfile, active, quitNow, txMain, main, genres, todo, wrote>>
+    /\ UNCHANGED <<result, pool, quitMsgs, seenG, seenW, wpc, wfile, active, quitNow, txMain, main, genres, todo, wrote>>
 
 \* the iterator ends when the channel is empty and every Sender is gone
 ColEnd ==
     /\ col = "run" /\ chan = <<>>
     /\ ~txMain /\ \A w \in Workers : Finished(w)
     /\ col' = "retOk" /\ rxOpen' = FALSE
-    /\ UNCHANGED <<result, pool, quitMsgs, wpc, wfile, active, quitNow, chan, acc, txMain, main, genres, todo, wrote>>
+    /\ UNCHANGED <<result, pool, quitMsgs, seenG, seenW, wpc, wfile, active, quitNow, chan, acc, txMain, main, genres, todo, wrote>>
 
 \* ----------------------------------------------------------------- main
 \* thread::scope returns once every worker thread has finished; a dead worker makes join().unwrap() panic
@@ -156,7 +168,7 @@ ScopeEnd ==
     /\ IF \E w \in Workers : wpc[w] = "dead"
        THEN main' = "exit101" /\ txMain' = txMain
        ELSE main' = "joincol" /\ txMain' = FALSE                 \* drop(tx)
-    /\ UNCHANGED <<result, pool, quitMsgs, wpc, wfile, active, quitNow, chan, rxOpen, col, acc, genres, todo, wrote>>
+    /\ UNCHANGED <<result, pool, quitMsgs, seenG, seenW, wpc, wfile, active, quitNow, chan, rxOpen, col, acc, genres, todo, wrote>>
 
 HasErrors == \E i \in 1..Len(acc) : result[acc[i]] = "bad"
 
@@ -167,7 +179,7 @@ JoinCol ==
     /\ IF col = "retErr" \/ HasErrors
        THEN main' = "exit1" /\ todo' = todo
        ELSE main' = "generate" /\ todo' = SortSeq(SetToSeq({OutOf[acc[i]] : i \in 1..Len(acc)}), LAMBDA a, b : Before(a, b))
-    /\ UNCHANGED <<result, pool, quitMsgs, wpc, wfile, active, quitNow, chan, rxOpen, col, acc, txMain, genres, wrote>>
+    /\ UNCHANGED <<result, pool, quitMsgs, seenG, seenW, wpc, wfile, active, quitNow, chan, rxOpen, col, acc, txMain, genres, wrote>>
 
 \* write_generated, one output after the other (crate name order): lang.generate_types, then check_write_file
 \* (Writer.tla says what the writer does with the bytes). A refusal by the backend ends the run: outputs generated
@@ -177,13 +189,13 @@ GenWrite ==
     /\ IF genres[Head(todo)] = "generr"
        THEN main' = "exit1" /\ UNCHANGED <<todo, wrote>>
        ELSE main' = main /\ todo' = Tail(todo) /\ wrote' = wrote \cup {Head(todo)}
-    /\ UNCHANGED <<result, pool, quitMsgs, wpc, wfile, active, quitNow, chan, rxOpen, col, acc, txMain, genres>>
+    /\ UNCHANGED <<result, pool, quitMsgs, seenG, seenW, wpc, wfile, active, quitNow, chan, rxOpen, col, acc, txMain, genres>>
 
 \* nothing left to generate. -o with no annotated item anywhere: "Could not get parsed data for single file output"
 GenDone ==
     /\ main = "generate" /\ todo = <<>>
     /\ main' = IF SingleFile /\ wrote = {} THEN "exit1" ELSE "exit0"
-    /\ UNCHANGED <<result, pool, quitMsgs, wpc, wfile, active, quitNow, chan, rxOpen, col, acc, txMain, genres, todo, wrote>>
+    /\ UNCHANGED <<result, pool, quitMsgs, seenG, seenW, wpc, wfile, active, quitNow, chan, rxOpen, col, acc, txMain, genres, todo, wrote>>
 
 Done == main \in Exits /\ UNCHANGED vars
 
@@ -206,11 +218,16 @@ OkFiles == {f \in Files : result[f] \in {"ok", "bad"}}
 \* C07: the run ends, and it ends with output or a diagnostic, never with a panic
 Terminates == <>(main \in Exits)
 NoPanicExit == main # "exit101"
+\* how often an accepted file is in the accumulator: once per delivery when nothing is de-duplicated; a de-duplicating variant
+\* may fold it once - but then ONCE, whatever the schedule (C06: the bytes are a function of the inputs)
+Copies(f) == Cardinality({i \in 1..Len(acc) : acc[i] = f})
+Allowed(f) == IF Dedupe = "none" THEN {Visits[f]} ELSE {1}
 NothingToGenerate == SingleFile /\ \A f \in Files : result[f] = "none"
 Refused == \E o \in Outs : genres[o] = "generr"
 ExitOk ==
     /\ main = "exit0" => /\ \A f \in Files : result[f] \in {"ok", "none"}
-                         /\ {acc[i] : i \in 1..Len(acc)} = OkFiles /\ Len(acc) = Cardinality(OkFiles)
+                         /\ {acc[i] : i \in 1..Len(acc)} = OkFiles
+                         /\ \A f \in OkFiles : Copies(f) \in Allowed(f)
                          /\ wrote = {OutOf[f] : f \in OkFiles}                \* "exits 0 after writing the requested output": all of it
     /\ main = "exit1" => (\E f \in Files : result[f] \in {"bad", "err"}) \/ Refused \/ NothingToGenerate
 \* a clean tree must not fail
@@ -221,12 +238,17 @@ NoWriteWithErrors == (wrote # {}) => (col = "retOk" /\ ~HasErrors)
 WroteOk == wrote \subseteq {OutOf[acc[i]] : i \in 1..Len(acc)}
 
 \* C06: the bytes are a function of the source tree, not of the schedule. Canonical = any fixed arrival order.
-Deterministic == main = "exit0" => Output(acc) = Output(SeqOfSet(OkFiles))
+RECURSIVE Repeat(_, _)
+Repeat(x, n) == IF n = 0 THEN <<>> ELSE <<x>> \o Repeat(x, n - 1)
+RECURSIVE Canonical(_)
+Canonical(S) == IF S = {} THEN <<>> ELSE LET x == CHOOSE y \in S : TRUE IN
+                    Repeat(x, IF Dedupe = "none" THEN Visits[x] ELSE 1) \o Canonical(S \ {x})
+Deterministic == main = "exit0" => Output(acc) = Output(Canonical(OkFiles))
 
 \* reachability query (expected to be VIOLATED): TLC's counter-example is a schedule in which a result
 \* is sent after the collector has gone; it is replayed on the real binary through the gates
 NoLateSend == ~(\E w \in Workers : wpc[w] = "send" /\ ~rxOpen)
 
-TypeOk == /\ active \in 0..Cardinality(Workers) /\ Len(chan) <= Cap /\ wrote \subseteq Outs
+TypeOk == /\ active \in 0..Cardinality(Workers) /\ Len(chan) <= Cap /\ wrote \subseteq Outs /\ \A f \in Files : pool[f] \in 0..Visits[f]
           /\ wpc \in [Workers -> {"get", "parse", "send", "sent", "quit", "idle", "exited", "dead"}]
 =============================================================================
